@@ -664,7 +664,7 @@ func runBannerConcurrent(c *ConcCase) vh.Outcome {
 	for g := 0; g < c.Goroutines; g++ {
 		for k := 0; k < c.Requests; k++ {
 			alone[uriOf(g, k)] = page(uriOf(g, k), false)
-			if !bytes.Contains(alone[uriOf(g, k)], []byte(uriOf(g, k)+`"`)) {
+			if !bytes.Contains(alone[uriOf(g, k)], []byte(html.EscapeString(uriOf(g, k))+`"`)) {
 				o.Inconclusive = "the frame page does not embed the requested URL even on its own"
 				return o
 			}
